@@ -10,7 +10,7 @@ from .base import gen_program, viol, shrink_program
 ID = "C11"
 LEVEL = "exploration"
 TIERS = {"quick": {"cases": 2200, "wall": 100, "min_nontrivial": 1200},
-         "thorough": {"cases": 60000, "wall": 1800, "min_nontrivial": 30000}}
+         "thorough": {"cases": 60000, "wall": 1800, "min_nontrivial": 12000}}
 RULE = ("generator -> valid program, decorated by vf.layout with comments of known text and position: full-line (before "
         "the first unit, after the last, after every opener, before every closer, anywhere), trailing, between "
         "continuation lines and trailing on continuation lines; texts include quotes, '!', '&' at the end, ';', "
